@@ -2,6 +2,7 @@ package syntax
 
 import (
 	"context"
+	"fmt"
 	"io"
 	"os"
 	"path"
@@ -81,7 +82,7 @@ func ParseFileRecursively(file string) (<-chan directives.File, func(context.Con
 	return cpr.Produce(func(ctx context.Context, ch chan<- directives.File) error {
 		wg, ctx := errgroup.WithContext(ctx)
 		wg.Go(func() error {
-			res, err := parseRec(ctx, wg, ch, file)
+			res, err := parseRec(ctx, wg, ch, file, nil)
 			if err != nil {
 				return err
 			}
@@ -96,7 +97,16 @@ type Result struct {
 	Err  error
 }
 
-func parseRec(ctx context.Context, wg *errgroup.Group, resCh chan<- directives.File, file string) (directives.File, error) {
+// parseRec parses the file and, concurrently, the files it includes. The
+// including files are the files on the include chain leading to this file.
+func parseRec(ctx context.Context, wg *errgroup.Group, resCh chan<- directives.File, file string, including []string) (directives.File, error) {
+	key := path.Clean(file)
+	for _, f := range including {
+		if f == key {
+			return directives.File{}, fmt.Errorf("include cycle: %s includes itself (through %v)", file, including)
+		}
+	}
+	chain := append(including[:len(including):len(including)], key)
 	text, err := os.ReadFile(file)
 	if err != nil {
 		return directives.File{}, err
@@ -109,7 +119,7 @@ func parseRec(ctx context.Context, wg *errgroup.Group, resCh chan<- directives.F
 		if inc, ok := d.Directive.(directives.Include); ok {
 			file := path.Join(filepath.Dir(file), inc.IncludePath.Content.Extract())
 			wg.Go(func() error {
-				res, err := parseRec(ctx, wg, resCh, file)
+				res, err := parseRec(ctx, wg, resCh, file, chain)
 				if err != nil {
 					return err
 				}
